@@ -436,8 +436,18 @@ func h2steps(sp h2spec) []h2step {
 		}
 		return nil
 	}})
-	st = append(st, h2step{"rest of the body and END_STREAM sent, end of body read", []string{"YEnd", "YReadEOF"}, func(r *h2run) error {
-		if err := r.pc.data(r.sid, true, r.resp[1000:]); err != nil {
+	// the declared body is complete before the stream ends: the pending Read waits for END_STREAM
+	st = append(st, h2step{"rest of the declared body sent and read, stream still open", []string{"YData"}, func(r *h2run) error {
+		if err := r.pc.data(r.sid, false, r.resp[1000:]); err != nil {
+			return err
+		}
+		if !settle(func() bool { return r.call.nread.Load() >= respBodyLen }) {
+			return errors.New("caller did not receive the body bytes")
+		}
+		return nil
+	}})
+	st = append(st, h2step{"END_STREAM sent, end of body read", []string{"YEnd", "YReadEOF"}, func(r *h2run) error {
+		if err := r.pc.data(r.sid, true, nil); err != nil {
 			return err
 		}
 		return waitCh(r.call.bodyDone, "body read did not end")
